@@ -11,7 +11,7 @@ DECIDED = ("R1 make_move decodes the ABI move with From<StableChessMove> (lossle
            "{is_valid: false, three_fold: false} on refusal WITHOUT touching the repetition table, and on success counts the position AFTER the move exactly once and reports that count's verdict; "
            "R2 ThreeFold::add inserts at 0, adds 1 and answers `== 3`; the table is keyed by Board (identity: C04.R4/R5); R3 set_board stores the given board and a fresh table; board() returns the "
            "stored board; evaluate searches the stored board with the stored table and encodes the result with EvaluatedMove::new; R4 the constructor starts from Board::standard() and an empty table.")
-DECIDED = DECIDED + ' R2 also: ThreeFold::add (entry/or_insert form or get/insert form) performs no forgetting operation on the table (clear, remove, retain, ...), and nothing else in the workspace borrows the table mutably; R6 premise re-run here: Board::move_mut applies a move only if it is in the full generated legal list (C02.R6).'
+DECIDED = DECIDED + ' R2 also: ThreeFold::add (entry/or_insert form or get/insert form) performs no forgetting operation on the table (clear, remove, retain, ...), and nothing else in the workspace borrows the table mutably; R6 premise re-run here: Board::move_mut applies a move only if it is in the full generated legal list (C02.R6). R7 premise re-run here: position identity (Eq and Hash of Board) is exactly placement, side to move, castling rights and en-passant file (C04.R3, R4).'
 NOT_DECIDED = ("that the reported board equals the reference successor (C02's behaviour) and that the proposed move is legal (C11.R1); whether the position installed by set_board "
                "itself counts as a first occurrence is ambiguous in the property ('since the board was last set') and is not demanded")
 EXPLANATION = "K4 effect tables of the four trait methods with the movegen/engine entry points opaque and their calls recorded in order."
